@@ -167,6 +167,11 @@ def format_code(
     if re.findall(r"# pyrefact: skip_file", source):
         return source
 
+    # What a name in a source is traced back to depends on the files of the modules that the
+    # source imports from, and these may have changed since the last call (pyrefact may have
+    # rewritten them itself). The cache is only good for the many lookups within one call.
+    tracing.trace_origin.cache_clear()
+
     source = source.expandtabs(4)
     source = rmspace.format_str(source)
     source = fixes.fix_too_many_blank_lines(source)
